@@ -141,6 +141,22 @@ fn one_op(sh: &Shared, c: &mut Client, tid: u32, r: &mut Rng) {
                 }
             }
         }
+        Err(e) if sh.faulty && !matches!(e, ReadErr::Timeout) => {
+            // a SET or DEL whose write failed in the store (injected failure): the server ends the
+            // connection without a reply. The command may or may not have taken effect: it stays
+            // open in the history; go on with a fresh connection
+            sh.gets_ended_by_a_failure.fetch_add(1, Ordering::Relaxed);
+            if let Some(k) = pending_kind {
+                sh.hist[ki].lock().unwrap().push(Op { thread: tid, kind: k, call, ret: linz::PENDING });
+            }
+            match connect(sh.port).and_then(|s| s.try_clone().map(|t| (s, t))) {
+                Ok((s, t)) => *c = Client { tx: t, rx: Rx::new(s), retired: false },
+                Err(e) => {
+                    problem(sh, "connect-failed", format!("connection {}: could not reconnect after a failed command: {}", tid, e));
+                    c.retired = true;
+                }
+            }
+        }
         Err(e) => {
             // no reply: the command may still take effect later; keep it open and retire the connection
             let how = match e {
@@ -271,8 +287,10 @@ fn episode(ctx: &Ctx, case: u64, out: &mut Out) {
     'seg: for seg in 0..segments {
         ctx.breadcrumb(case, &format!("segment {}", seg));
         if faulty && r.chance(1, 3) {
-            if srv.arm_fault(shim::C_OPENRD | shim::C_MMAP, shim::F_DATA, r.below(4) as i64, if r.chance(1, 2) { libc::EIO } else { libc::EMFILE }) {
-                out.count("read_side_failures_armed_in_server", 1);
+            // read side (open for reading, mmap) or write side (write, create of a data file)
+            let cls = if r.chance(1, 2) { shim::C_OPENRD | shim::C_MMAP } else { shim::C_WRITE | shim::C_CREATE };
+            if srv.arm_fault(cls, shim::F_DATA, r.below(4) as i64, if r.chance(1, 2) { libc::EIO } else { libc::EMFILE }) {
+                out.count(if cls & shim::C_WRITE != 0 { "write_side_failures_armed_in_server" } else { "read_side_failures_armed_in_server" }, 1);
             }
         }
         sh.done.store(0, Ordering::Release);
@@ -366,7 +384,7 @@ fn episode(ctx: &Ctx, case: u64, out: &mut Out) {
     out.count("episodes", 1);
     if faulty {
         out.count("episodes_with_read_side_failures", 1);
-        out.count("gets_ended_by_an_injected_failure", sh.gets_ended_by_a_failure.load(Ordering::Relaxed));
+        out.count("commands_ended_by_an_injected_failure", sh.gets_ended_by_a_failure.load(Ordering::Relaxed));
     }
     out.count("segments", segs_done);
     out.count("commands", sh.ops_done.load(Ordering::Relaxed));
